@@ -115,6 +115,28 @@ class _TempAssume(object):
         return False
 
 
+def split_goal(z, hyps=None, depth=0):
+    """Split  A => (B1 and B2 ...)  into separate goals [(hypotheses, conclusion)] (smaller queries)."""
+    hyps = list(hyps or [])
+    if depth > 6:
+        return [(hyps, z)]
+    if z3.is_and(z):
+        out = []
+        for c in z.children():
+            out.extend(split_goal(c, hyps, depth + 1))
+        return out
+    if z3.is_implies(z):
+        a, b = z.children()
+        return split_goal(b, hyps + [a], depth + 1)
+    if z3.is_or(z):
+        ch = z.children()
+        negs = [c for c in ch if z3.is_not(c)]
+        rest = [c for c in ch if not z3.is_not(c)]
+        if negs and len(rest) == 1:
+            return split_goal(rest[0], hyps + [c.children()[0] for c in negs], depth + 1)
+    return [(hyps, z)]
+
+
 class Context(object):
     """One exploration (all paths) of one verification task."""
 
@@ -267,17 +289,21 @@ class Context(object):
         if cond is True:
             verdict, model, solver = "proved", None, "trivial"
         else:
-            r, m, _ = self.check(z3.Not(zc), timeout=self.budget.prove_ms)
-            solver = "z3"
-            if r == "unsat":
-                verdict, model = "proved", None
-            elif r == "sat":
-                verdict, model = "failed", self.concretise(m)
-            else:
-                verdict, model = "unknown", None
-                r2 = self.try_cvc5(z3.Not(zc))
+            verdict, model, solver = "proved", None, "z3"
+            for hyps, goal in split_goal(zc):
+                neg = z3.And(*(hyps + [z3.Not(goal)])) if hyps else z3.Not(goal)
+                r, m, _ = self.check(neg, timeout=self.budget.prove_ms)
+                if r == "unsat":
+                    continue
+                if r == "sat":
+                    verdict, model = "failed", self.concretise(m)
+                    break
+                r2 = self.try_cvc5(neg)
                 if r2 == "unsat":
-                    verdict, solver = "proved", "cvc5"
+                    solver = "z3+cvc5"
+                    continue
+                verdict, model = "unknown", None
+                break
         ms = (time.time() - t0) * 1000
         self.obligations.append(Obligation(oid, kind, verdict, ms, solver, detail, model,
                                            self.path_index, tags))
@@ -459,15 +485,23 @@ def strip_fn(self, name, z, chars):
         l = self.fresh("lstrip_l").z
         m = self.fresh("lstrip_m").z
         self.assume(cur == z3.Concat(l, m))
+        self.assume(z3.Length(cur) == z3.Length(l) + z3.Length(m))
+        self.assume(z3.SubString(cur, 0, z3.Length(l)) == l)          # instances of (l++m)[..] facts
+        self.assume(z3.SubString(cur, 0, z3.Length(cur) - z3.Length(m)) == l)
         self.assume(z3.InRe(l, z3.Star(cls)))
         self.assume(z3.InRe(m, z3.Union(z3.Re(z3.StringVal("")), z3.Concat(ncls, any_))))
+        self.assume(z3.Or(z3.Length(m) == 0, z3.InRe(z3.SubString(m, 0, 1), ncls)))
         cur = m
     if name in ("strip", "rstrip"):
         m = self.fresh("rstrip_m").z
         r = self.fresh("rstrip_r").z
         self.assume(cur == z3.Concat(m, r))
+        self.assume(z3.Length(cur) == z3.Length(m) + z3.Length(r))
+        self.assume(z3.SubString(cur, z3.Length(m), z3.Length(cur) - z3.Length(m)) == r)
         self.assume(z3.InRe(r, z3.Star(cls)))
         self.assume(z3.InRe(m, z3.Union(z3.Re(z3.StringVal("")), z3.Concat(any_, ncls))))
+        self.assume(z3.Or(z3.Length(m) == 0, z3.InRe(z3.SubString(m, z3.Length(m) - 1, 1), ncls)))
+        self.assume(z3.Or(z3.Length(m) == 0, z3.SubString(m, 0, 1) == z3.SubString(cur, 0, 1)))
         cur = m
     return cur
 
